@@ -1,6 +1,11 @@
 pub mod c01;
 pub mod c02;
+pub mod c03;
 pub mod c04;
+pub mod c10;
+pub mod c11;
+pub mod c13;
+pub mod e2e;
 
 use crate::engine::{Env, Stats, Violation};
 use serde_json::Value;
@@ -9,7 +14,13 @@ pub fn run(env: &Env) -> Option<i32> {
     Some(match env.prop.as_str() {
         "C01" => c01::run(env),
         "C02" => c02::run(env),
+        "C03" => c03::run_c03(env),
         "C04" => c04::run(env),
+        "C10" => c10::run(env),
+        "C11" => c11::run_c11(env),
+        "C12" => c11::run_c12(env),
+        "C13" => c13::run(env),
+        "C16" => c03::run_c16(env),
         _ => return None,
     })
 }
@@ -18,7 +29,11 @@ pub fn replay(env: &Env, check: &str, case: &Value, st: &mut Stats) -> Option<Ve
     Some(match env.prop.as_str() {
         "C01" => c01::replay(env, check, case, st),
         "C02" => c02::replay(env, check, case, st),
+        "C03" | "C16" => c03::replay(env, check, case, st),
         "C04" => c04::replay(env, check, case, st),
+        "C10" => c10::replay(env, check, case, st),
+        "C11" | "C12" => c11::replay(env, check, case, st),
+        "C13" => c13::replay(env, check, case, st),
         _ => return None,
     })
 }
